@@ -221,7 +221,7 @@ def par_live(ctx, obs, prefixes: Sequence[str], rule='PAR-live') -> int:
 # which modules' functions are swept under which property (callers; each module belongs to the property whose behaviour it
 # implements - a dropped option there breaks that property's "the option the user passed is the one in force" premise)
 PROPERTY_SCOPE: Dict[str, List[str]] = {
-    'C01': ['rdm.calc.'],
+    'C01': ['rdm.calc.', 'rdm.combine.from_partials'],
     'C02': ['rdm.calc.calc_rdm_crossnobis', 'rdm.calc.calc_rdm_poisson_cv', 'rdm.calc._calc_rdm_crossnobis_single',
             'rdm.calc._gen_default_cv_descriptor'],
     'C03': ['rdm.compare.'],
@@ -231,7 +231,7 @@ PROPERTY_SCOPE: Dict[str, List[str]] = {
     'C07': ['inference.noise_ceiling.'],
     'C08': ['model.'],
     'C09': ['inference.bootstrap.'],
-    'C10': ['rdm.rdms.', 'util.descriptor_utils.', 'util.rdm_utils.'],
+    'C10': ['rdm.rdms.', 'util.descriptor_utils.', 'util.rdm_utils.', 'rdm.combine.from_partials'],
     'C11': ['data.base.', 'data.dataset.', 'data.ops.', 'util.data_utils.'],
     'C13': ['rdm.combine.'],
     'C14': ['data.noise.'],
@@ -261,6 +261,7 @@ def run(ctx, obs, prop: str):
     b = par_live(ctx, obs, pre)
     obs.analysed['sweep_dtype_buffers'] = dtype_inherit(ctx, obs, pre + EXTRA_DTYPE_SCOPE.get(prop, []))
     obs.analysed['sweep_inplace_div'] = inplace_division(ctx, obs, pre)
+    obs.analysed['sweep_sorted_arg'] = sorted_argument(ctx, obs, pre)
     obs.analysed['sweep_fwd_default_sites'] = a
     obs.analysed['sweep_par_live_params'] = b
     if b == 0:
@@ -546,3 +547,80 @@ def inplace_division(ctx, obs, prefixes: Sequence[str], rule='INPLACE-DIV') -> i
             else:
                 obs.unk(rule, q, con, f'dtype kind of `{base.id}` not determined', where(prog, f, s))
     return n
+
+
+# --------------------------------------------------------------------------------------------------- SORTED-ARG
+_SORTED_PRODUCERS = {'sort', 'unique', 'sorted', 'arange', 'cumsum', 'linspace', 'union1d', 'intersect1d', 'setdiff1d'}
+_NEED_SORTED = {'searchsorted': 0, 'digitize': 1}
+
+
+def sorted_argument(ctx, obs, prefixes: Sequence[str], rule='SORTED-ARG') -> int:
+    """np.searchsorted(a, v) (and np.digitize bins) silently return wrong positions when `a` is not ascending.  Every such call
+    needs an argument that is established as sorted on all reaching definitions (np.sort / np.unique / sorted / arange ...);
+    a parameter, a first-appearance list (dict.fromkeys, get_unique_unsorted) or an accumulated list is not."""
+    prog = ctx.prog
+    n = 0
+    for q, f in sorted(prog.functions.items()):
+        if not _in_scope(q, prefixes):
+            continue
+        calls = [c for c in ast.walk(f.node) if isinstance(c, ast.Call) and _leafname(c.func) in _NEED_SORTED]
+        if not calls:
+            continue
+        r = ctx.dep.result(q)
+        for c in calls:
+            k = _NEED_SORTED[_leafname(c.func)]
+            args = list(c.args)
+            if isinstance(c.func, ast.Attribute) and not (isinstance(c.func.value, ast.Name) and c.func.value.id in ('np', 'numpy')):
+                args = [c.func.value] + args
+            if len(args) <= k:
+                continue
+            a = args[k]
+            n += 1
+            verdict, why = _sortedness(a, r, 0)
+            con = f'`{norm(c)[:60]}`: the searched array is ascending'
+            if verdict == 'sorted':
+                obs.ok(rule, q, con, why, where(prog, f, c))
+            elif verdict == 'unsorted':
+                obs.bad(rule, q, con, f'`{norm(a)[:40]}` {why}: positions returned for an unsorted array are meaningless (no error is raised)',
+                        where(prog, f, c))
+            else:
+                obs.unk(rule, q, con, why, where(prog, f, c))
+    return n
+
+
+def _sortedness(e, r, depth):
+    if depth > 6:
+        return 'unknown', 'definition chain too long'
+    if isinstance(e, ast.Call):
+        nm = _leafname(e.func)
+        if nm in _SORTED_PRODUCERS:
+            return 'sorted', f'produced by {nm}'
+        if nm in ('array', 'asarray', 'list', 'tuple') and e.args:
+            return _sortedness(e.args[0], r, depth + 1)
+        if nm in ('fromkeys', 'keys', 'get_unique_unsorted'):
+            return 'unsorted', 'lists the values in order of first appearance'
+        return 'unknown', f'result of {nm}()'
+    if isinstance(e, ast.Subscript):
+        return _sortedness(e.value, r, depth + 1) if isinstance(e.slice, ast.Constant) else ('unknown', 'indexed')
+    if isinstance(e, ast.Name):
+        ids = r.load_defs.get(id(e)) if r is not None else None
+        if not ids:
+            return 'unknown', 'no reaching definition recorded'
+        verdicts = []
+        for i in ids:
+            d = r.defs[i]
+            if d.kind == 'param':
+                verdicts.append(('unsorted', f'may be the caller\'s `{d.var}` in any order'))
+            elif d.kind == 'aug':
+                verdicts.append(('unsorted', 'is accumulated with += in input order'))
+            elif d.kind == 'assign' and d.rhs is not None and isinstance(d.node, ast.Assign) and isinstance(d.node.targets[0], ast.Name):
+                verdicts.append(_sortedness(d.rhs, r, depth + 1))
+            else:
+                verdicts.append(('unknown', 'definition not analysable'))
+        for v in verdicts:
+            if v[0] == 'unsorted':
+                return v
+        if all(v[0] == 'sorted' for v in verdicts):
+            return 'sorted', 'all reaching definitions are sorted'
+        return 'unknown', 'some reaching definition is not recognisably sorted'
+    return 'unknown', 'expression not recognised'
